@@ -258,13 +258,20 @@ def make_x(rng, xr, backing=None):
     x.encoding["caller"] = 1
     backing = backing or str(rng.choice(["numpy", "numpy", "view", "dask"]))
     owner = None
-    if backing == "view":
+    if rng.random() < 0.15:
+        # a few missing bins (masked land / ice points, despiked records): whatever an operation makes of them - a result
+        # with NaN, an exception - the caller's missing bins stay missing
+        v_ = np.array(x.values)
+        v_[rng.random(v_.shape) < 0.08] = np.nan
+        x = x.copy(data=v_)
+        backing += "+missing-bins"
+    if backing.startswith("view"):
         big = np.zeros(tuple(s + 2 for s in x.shape), dtype=x.dtype)
         view = big[tuple(slice(1, -1) for _ in x.shape)]
         view[...] = x.values
         x = x.copy(data=view)
         owner = big
-    elif backing == "dask":
+    elif backing.startswith("dask"):
         x = x.chunk({d: max(1, x.sizes[d] // 2) for d in x.dims if d not in ("freq", "dir")} or {"freq": -1})
     return x, backing, owner
 
@@ -559,6 +566,24 @@ def writers(ctx, rng, xr, ws, d):
     ds["time"].encoding["units"] = "hours since 2000-01-01"
     lons = np.array([170.0] * ds.sizes.get("site", 1))
     key = fmt
+    if fmt not in ("orcaflex", "funwave") and rng.random() < 0.35:
+        # a lazily opened dataset of which only some variables were loaded: spectra in memory next to dask-backed forcing,
+        # or the other way round
+        lead_ = [d_ for d_ in ds["efth"].dims if d_ not in ("freq", "dir")]
+        shp_ = tuple(ds.sizes[d_] for d_ in lead_)
+        ds["wspd"] = (tuple(lead_), rng.uniform(0, 25, shp_))
+        ds["dpt"] = (tuple(lead_), rng.uniform(5, 300, shp_))
+        which = str(rng.choice(["forcing-lazy", "spectra-lazy", "one-forcing-lazy"]))
+        one_ = {d_: 1 for d_ in lead_}
+        if which == "forcing-lazy":
+            ds["wspd"], ds["dpt"] = ds["wspd"].chunk(one_), ds["dpt"].chunk(one_)
+        elif which == "one-forcing-lazy":
+            ds["dpt"] = ds["dpt"].chunk(one_)
+        else:
+            ds["efth"] = ds["efth"].chunk(one_)
+        ds["efth"].encoding["caller"] = True
+        key += "|mixed-backing:" + which
+        rec.note("writer_given_partly_loaded_dataset")
     path = os.path.join(d, "out")
     fq = ds.freq.values
     calls = {
